@@ -25,9 +25,11 @@ Section Engine.
     g_nonce : kv N;              (* account -> nonce *)
     g_pool : list (N * N * N);   (* parked: (account, nonce, parked-in block) *)
     g_dirty : bool;              (* the open block holds parked-pool writes *)
+    g_log : list (N * N * N * N * bool);  (* ghost: executions, newest first:
+                                             (block, tx_idx, account, tx nonce, passed revm validation) *)
   }.
 
-  Definition g_init : eng := mkEng None 0 0 0 0 [] [] [] false.
+  Definition g_init : eng := mkEng None 0 0 0 0 [] [] [] false [].
 
   Definition height (g : eng) : N := match g_h g with Some h => h | None => 0 end.
   (* engine.get_next_block_height: 0 on an empty database (block 0 absent), height + 1 otherwise *)
@@ -51,11 +53,11 @@ Section Engine.
 
   (* one execution through add_tx_to_block; [valid]: revm accepted the transaction (the
      sender's nonce is consumed). Returns None when rejected. *)
-  Definition exec_tx (g : eng) (acct tx_idx ts hash number : N) (valid : bool) : option eng :=
+  Definition exec_tx (g : eng) (acct txnonce tx_idx ts hash number : N) (valid : bool) : option eng :=
     if validate_next g tx_idx hash number ts then
       Some (mkEng (g_h g) (g_maxb g) (g_wait g + 1) ts hash (g_blocks g)
                   (if valid then kv_put (g_nonce g) acct (nonce_of g acct + 1) else g_nonce g)
-                  (g_pool g) (g_dirty g))
+                  (g_pool g) (g_dirty g) ((number, tx_idx, acct, txnonce, valid) :: g_log g))
     else None.
 
   Definition pool_find (g : eng) (a n : N) : option N :=
@@ -82,17 +84,17 @@ Section Engine.
         | Some parked_in =>
             if number <? FB + parked_in then
               (* still fresh: execute it at the next index *)
-              match exec_tx g a next_idx ts hash number (hd true valids) with
+              match exec_tx g a next_nonce next_idx ts hash number (hd true valids) with
               | None => None
               | Some g1 =>
                   let g2 := mkEng (g_h g1) (g_maxb g1) (g_wait g1) (g_ts g1) (g_hash g1) (g_blocks g1)
-                                  (g_nonce g1) (pool_remove (g_pool g1) a next_nonce) true in
+                                  (g_nonce g1) (pool_remove (g_pool g1) a next_nonce) true (g_log g1) in
                   drain fuel' g2 a (next_nonce + 1) (next_idx + 1) ts hash number (tl valids) (done + 1)
               end
             else
               (* expired: dropped, the drain stops here *)
               let g2 := mkEng (g_h g) (g_maxb g) (g_wait g) (g_ts g) (g_hash g) (g_blocks g)
-                              (g_nonce g) (pool_remove (g_pool g) a next_nonce) true in
+                              (g_nonce g) (pool_remove (g_pool g) a next_nonce) true (g_log g) in
               Some (g2, done)
         end
     end.
@@ -111,7 +113,8 @@ Section Engine.
   | CInit (hash ts height : N)
   | CCommit
   | CClear (hc : option N) (committed_blocks : list (N * N))     (* what the last commit made durable *)
-  | CReorg (n : N).
+           (nonces : kv N) (pool : list (N * N * N))             (* EVM state / pool re-read by the harness *)
+  | CReorg (n : N) (nonces : kv N) (pool : list (N * N * N)).
 
   Inductive outcome : Type :=
   | ORejected
@@ -122,7 +125,7 @@ Section Engine.
     if validate_next g count hash number ts then
       (* clear_txpool(number): parked entries with parked_in + FB <= number are dropped *)
       Some (mkEng (Some number) (N.max (g_maxb g) number) 0 0 0 ((number, hash) :: g_blocks g) (g_nonce g)
-                  (filter (fun p => number <? snd p + FB) (g_pool g)) false)
+                  (filter (fun p => number <? snd p + FB) (g_pool g)) false (g_log g))
     else None.
 
   Fixpoint mine (fuel : nat) (g : eng) (number ts : N) : option eng :=
@@ -138,7 +141,7 @@ Section Engine.
     match c with
     | CTx acct tx_idx ts hash valid =>
         let number := next_h g in
-        match exec_tx g acct tx_idx ts (resolve_hash hash number) number valid with
+        match exec_tx g acct (nonce_of g acct) tx_idx ts (resolve_hash hash number) number valid with
         | Some g' => (g', OOk 1)
         | None => (g, ORejected)
         end
@@ -151,7 +154,7 @@ Section Engine.
         | DSigned a n =>
             let an := nonce_of g a in
             if n =? an then
-              match exec_tx g a tx_idx ts hash number (hd true valids) with
+              match exec_tx g a n tx_idx ts hash number (hd true valids) with
               | None => (g, ORejected)
               | Some g1 =>
                   match drain (S (length (g_pool g1))) g1 a (an + 1) (tx_idx + 1) ts hash number (tl valids) 1 with
@@ -161,7 +164,7 @@ Section Engine.
               end
             else if (an <? n) && (n <? an + FN) then
               (mkEng (g_h g) (g_maxb g) (g_wait g) (g_ts g) (g_hash g) (g_blocks g) (g_nonce g)
-                     (pool_put (g_pool g) a n number) true, OOk 0)
+                     (pool_put (g_pool g) a n number) true (g_log g), OOk 0)
             else (g, OOk 0)
         end
     | CFinalise ts hash count =>
@@ -182,7 +185,7 @@ Section Engine.
         match find (fun b => fst b =? hgt) (g_blocks g) with
         | Some b => if snd b =? hash then (g, OOk 0) else (g, ORejected)
         | None =>
-            match exec_tx g 0 0 ts hash hgt true with
+            match exec_tx g 0 (nonce_of g 0) 0 ts hash hgt true with
             | None => (g, ORejected)
             | Some g1 =>
                 match finalise g1 ts hash hgt 1 with
@@ -193,11 +196,15 @@ Section Engine.
         end
     | CCommit =>
         if negb (g_wait g =? 0) || g_dirty g then (g, ORejected) else (g, OOk 0)
-    | CClear hc blocks =>
+    | CClear hc blocks nonces pool =>
         (* everything uncommitted is dropped; nonces and pool of the committed state are
            re-read by the harness (they live in the store) *)
-        (mkEng hc (g_maxb g) 0 0 0 blocks (g_nonce g) (g_pool g) false, OOk 0)
-    | CReorg n =>
+        (mkEng hc (g_maxb g) 0 0 0 blocks nonces pool false
+               (match hc with
+                | Some c => filter (fun e => fst (fst (fst (fst e))) <=? c) (g_log g)
+                | None => []
+                end), OOk 0)
+    | CReorg n nonces pool =>
         if negb (g_wait g =? 0) || g_dirty g then (g, ORejected)
         else
           let h := height g in
@@ -206,6 +213,6 @@ Section Engine.
           else if n =? h then (g, OOk 0)
           else if W + n <? g_maxb g then (g, ORejected)
           else (mkEng (Some n) (g_maxb g) 0 0 0 (filter (fun b => fst b <=? n) (g_blocks g))
-                      (g_nonce g) (g_pool g) false, OOk 0)
+                      nonces pool false (filter (fun e => fst (fst (fst (fst e))) <=? n) (g_log g)), OOk 0)
     end.
 End Engine.
